@@ -143,8 +143,43 @@ def bestfit_oracle(c):
     if R is None:
         return ("panic", "BestFitVoting::winners panicked")
     el = eligible(c)
+    if bestfit_tie_free(c):
+        # No two comparable claims (same query or same track) have equal weights, so the property text fixes the answer
+        # completely, also when query ids and track ids overlap numerically: every claim (q, t) - a pair with >= min_votes
+        # distances <= max_distance - is answered in q's list, in order of decreasing weight, by the track t if q is the
+        # claimant of greatest weight of t ("awards each track to ... the one with the greatest weight"; a track claimed by
+        # >= 1 query is awarded to its heaviest claimant), and by the query itself otherwise. Entries are identified by
+        # their weights, which are pairwise different within one query.
+        top = {}
+        for (q, t), w in el.items():
+            if t not in top or w > top[t][0]:
+                top[t] = (w, q)
+        expected = {}
+        for (q, t), w in el.items():
+            expected.setdefault(q, []).append((t if top[t][1] == q else q, w))
+        for q in expected:
+            expected[q].sort(key=lambda e: -e[1])
+        if R != expected:
+            for q in sorted(set(expected) | set(R)):
+                got = {w: t for t, w in R.get(q, [])}
+                for t, w in expected.get(q, []):
+                    pair_t = [tt for (qq, tt), ww in el.items() if qq == q and ww == w][0]
+                    if w not in got:
+                        return ("missing-entry", "query %d has no entry of weight %s for its claim on track %d" % (q, w, pair_t))
+                    if got[w] != t and t == pair_t:
+                        return ("not-awarded-to-heaviest", "track %d is claimed by query %d with weight %s, the greatest weight among its claimants %s, "
+                                "but the answer gives that claim the winner %d instead of the track"
+                                % (pair_t, q, w, sorted((float(ww), qq) for (qq, tt), ww in el.items() if tt == pair_t), got[w]))
+                    if got[w] != t:
+                        return ("not-heaviest", "query %d's claim on track %d (weight %s) is answered by %d although query %d claims that track with the greater weight %s"
+                                % (q, pair_t, w, got[w], top[pair_t][1], top[pair_t][0]))
+                if [w for _, w in R.get(q, [])] != [w for _, w in expected.get(q, [])]:
+                    return ("weight", "query %d: weights of its entries %s, expected (decreasing) %s"
+                            % (q, [float(w) for _, w in R.get(q, [])], [float(w) for _, w in expected.get(q, [])]))
+            return ("weight", "answer %s differs from %s" % (R, expected))
+        return None
     if not ids_disjoint(c):
-        return None          # "the query itself" and "a track" cannot be told apart: outside the property's reading
+        return None          # ties AND overlapping id spaces: "the query itself" and "a track" cannot be told apart
     claim = defaultdict(list)
     for (q, t), w in el.items():
         claim[t].append((w, q))
